@@ -203,6 +203,33 @@ def oracle(ck, tier, deep):
         err = np.abs(cn[:, good] - coeffs[:, None]).max()
         if not (err <= 1e-4 * max(1.0, np.abs(coeffs).max())):
             ck.violation(sig, dict(rep, radii=[25, n // 2 - 3]), f"slit weights (range {1 / floor:.0e}): recovered coefficients differ from the exact model by {err:.3g}")
+    # "any strictly positive weights": zones of one image weighted many orders of magnitude apart (a saturated centre given a
+    # vanishing weight, inverse variances of a detector with dead and hot regions) — every radius is fitted with its own weights only
+    for it, (order, small, big, method) in enumerate(itertools.product([2, 4, 6, 3], [1e-3, 1e-100, 1e-160, 1e-250], [1.0, 1e100],
+                                                                      ["nearest", "linear"])):
+        if not deep and (it + seed()) % 3:
+            continue
+        odd = order == 3
+        n = 61
+        N = 1 + (order if odd else order // 2)
+        origin = (n // 2, n // 2)
+        coeffs = rng.normal(size=N)
+        im, _ = synth_image((n, n), origin, coeffs, odd)
+        yy, xx = np.mgrid[:n, :n] - n // 2
+        wt = np.where(np.hypot(xx, yy) <= 15, big, small * big)
+        ck.count(("S.zones", order, small, big, method), suite="S.recover")
+        rep = dict(shape=[n, n], origin=list(origin), order=order, odd=odd, method=method, inner_weight=big, outer_weight=small * big, coeffs=coeffs.tolist())
+        sig = dict(site="Distributions", clause="exact-recovery-weight-zones", method=method)
+        try:
+            cn = quiet(quiet(vmi.Distributions, origin=origin, rmax="MIN", order=order, odd=odd, weights=wt, method=method).image, im).cos()
+        except Exception as e:
+            ck.violation(dict(sig, clause="exception"), rep, f"{type(e).__name__}: {e}")
+            continue
+        for lo, hi in ((8, 13), (19, 28)):
+            err = np.abs(cn[:, lo:hi] - coeffs[:, None]).max() if np.isfinite(cn[:, lo:hi]).all() else np.inf
+            if not (err <= (1e-6 if method == "nearest" else 5e-3) * max(1.0, np.abs(coeffs).max())):
+                ck.violation(sig, dict(rep, radii=[lo, hi - 1]), f"weights {big:g} inside r = 15 and {small * big:g} outside: coefficients at radii "
+                             f"{lo}..{hi - 1} differ from the exact model by {err:.3g}")
     # "all images": the memory layout of the array is not part of the image — column-major data (a transposed view, np.rot90,
     # data read from Fortran/MATLAB files) give the coefficients of the same pixels; origins that need no folding included
     for _ in range(60 if not deep else 500):
